@@ -161,6 +161,85 @@ fn corpus_check(rule_idx: usize, full: bool, l: &mut Local) {
     });
 }
 
+// ---- bucket forcing: make every indexable token of a rule the rarest one in turn ---------------
+
+/// Text tokens (maximal runs of alphanumerics / '%', length >= 2) of the rule's pattern part, and
+/// the domains of a `domain=` option.
+fn text_tokens(rule: &str) -> (Vec<String>, Vec<String>) {
+    let r = rule.strip_prefix("@@").unwrap_or(rule);
+    let (body, opts) = match r.rfind('$') {
+        Some(i) => (&r[..i], &r[i + 1..]),
+        None => (r, ""),
+    };
+    let mut toks = vec![];
+    let mut cur = String::new();
+    for c in body.to_ascii_lowercase().chars().chain(std::iter::once('/')) {
+        if c.is_alphanumeric() || c == '%' {
+            cur.push(c);
+        } else {
+            if cur.chars().count() >= 2 && !toks.contains(&cur) {
+                toks.push(cur.clone());
+            }
+            cur.clear();
+        }
+    }
+    let mut doms = vec![];
+    for o in opts.split(',') {
+        if let Some(v) = o.strip_prefix("domain=") {
+            doms.extend(v.split('|').filter(|d| !d.starts_with('~')).map(|d| d.to_string()));
+        }
+    }
+    (toks, doms)
+}
+
+/// For one rule: one list per indexable token t of the rule, consisting of the rule plus two
+/// filler rules for every *other* indexable token (so that t is the rarest and the rule is stored
+/// in t's bucket).
+fn forced_lists(rule: &'static str) -> Vec<(String, Vec<String>)> {
+    use vh::oracle::netspec as ns;
+    let parsed = ns::parse_rules(&[rule], &[]);
+    let f = match parsed.first() {
+        Some(r) => &r.f,
+        None => return vec![],
+    };
+    let groups = f.get_tokens();
+    let (toks, doms) = text_tokens(rule);
+    // (text, is_domain) of every token the rule can be indexed under
+    let mut indexable: Vec<(String, bool)> = vec![];
+    for g in &groups {
+        for h in g {
+            if let Some(t) = toks.iter().find(|t| adblock::utils::fast_hash(t) == *h) {
+                if !indexable.iter().any(|x| x.0 == *t) {
+                    indexable.push((t.clone(), false));
+                }
+            } else if let Some(d) = doms.iter().find(|d| adblock::utils::fast_hash(d) == *h) {
+                if !indexable.iter().any(|x| x.0 == *d) {
+                    indexable.push((d.clone(), true));
+                }
+            }
+        }
+    }
+    let mut out = vec![];
+    if indexable.len() < 2 {
+        return out;
+    }
+    for (ti, target) in indexable.iter().enumerate() {
+        let mut list = vec![rule.to_string()];
+        let mut k = 0;
+        for (ui, (u, is_dom)) in indexable.iter().enumerate() {
+            if ui == ti {
+                continue;
+            }
+            for _ in 0..2 {
+                k += 1;
+                list.push(if *is_dom { format!("/zzfiller{}/$domain={}", k, u) } else { format!("/{}/zzfiller{}/", u, k) });
+            }
+        }
+        out.push((target.0.clone(), list));
+    }
+    out
+}
+
 fn replay(case: &Value, l: &mut Local) {
     if case["kind"].as_str() == Some("corpus") {
         corpus_check(case["rule_idx"].as_u64().unwrap_or(0) as usize, true, l);
@@ -187,6 +266,17 @@ fn check(ctx: &Ctx) -> i32 {
         let sample = l.samples.len() < 2 && (i + ctx.seed) % 577 == 3;
         vh::netsweep::check_list("c01", &items, &reqs, l, sample, true);
     });
+    // bucket forcing: every rule of the pool, stored under each of its indexable tokens in turn
+    let forced: Vec<(&'static str, String, Vec<String>)> = alpha::R_NET.iter().flat_map(|r| forced_lists(r).into_iter().map(move |(t, l)| (*r, t, l))).collect();
+    ctx.bound("bucket_forcing_lists", forced.len());
+    ctx.par_range("bucket forcing", forced.len() as u64, 1, |i, l| {
+        let (rule, target, list) = &forced[i as usize];
+        let items: Vec<(&str, bool)> = list.iter().map(|r| (r.as_str(), false)).collect();
+        if l.samples.len() < 2 && (i + ctx.seed) % 17 == 0 {
+            l.samples.push(serde_json::json!({"bucket_forcing": {"rule": rule, "forced_token": target, "list": list}}));
+        }
+        vh::netsweep::check_list("c01.forced", &items, &reqs, l, false, true);
+    });
     // corpus sweep: 3 613 real rules (frozen copy under harness/corpus) loaded as one list, against
     // URLs derived from every rule
     let nrules = corpus_rules().len() as u64;
@@ -212,7 +302,7 @@ fn check(ctx: &Ctx) -> i32 {
     }
     ctx.finish(
         "model_checking",
-        "all ordered lists without repetition of <= k rules of the 50-entry pool (R_net + 2 hosts lines), each built into a real engine (no optimisation), under every subset of the tags the list mentions, against every request of U_net x (initiator,type); plus a corpus sweep (3 613 real rules from EasyList / uBO / Brave lists, frozen under harness/corpus, loaded as one list, against URLs derived from every rule by a fixed procedure x initiators x types); non-trivial = at least one rule of the list matches the request per the public matcher; states = engines built, transitions = requests checked, each compared field by field (matched, important, exception, redirect, rewritten URL, CSP set) with the reference combiner",
+        "all ordered lists without repetition of <= k rules of the 50-entry pool (R_net + 2 hosts lines), each built into a real engine (no optimisation), under every subset of the tags the list mentions, against every request of U_net x (initiator,type); plus bucket forcing (every pool rule with two filler rules per other indexable token, so that the rule is stored under each of its tokens in turn) and a corpus sweep (3 613 real rules from EasyList / uBO / Brave lists, frozen under harness/corpus, loaded as one list, against URLs derived from every rule by a fixed procedure x initiators x types); non-trivial = at least one rule of the list matches the request per the public matcher; states = engines built, transitions = requests checked, each compared field by field (matched, important, exception, redirect, rewritten URL, CSP set) with the reference combiner",
         &[
             "per-rule match = the public NetworkFilter::matches on the parsed rule (differential); precedence, badfilter, tags, redirect choice, removeparam and CSP come from the independent reference",
             "no 64-bit seahash collision among the strings of the alphabets (checked at start-up)",
